@@ -1,6 +1,7 @@
 package sstables
 
 import (
+	"bytes"
 	"errors"
 	"fmt"
 	rProto "github.com/thomasjungblut/go-sstables/recordio/proto"
@@ -41,21 +42,28 @@ func (s *Byte20KeyMapper) MapBytes(data []byte) [20]byte {
 // find the given keys for range lookups. This is useful for fast Contains/Get lookups.
 type MapKeyIndex[T comparable] struct {
 	SliceKeyIndex
-	index  map[T]IndexVal
+	index  map[T]sliceKey
 	mapper ByteKeyMapper[T]
 }
 
 func (s *MapKeyIndex[T]) Contains(key []byte) (bool, error) {
-	_, found := s.index[s.mapper.MapBytes(key)]
-	return found, nil
+	_, err := s.Get(key)
+	return err == nil, nil
 }
+
 func (s *MapKeyIndex[T]) Get(key []byte) (IndexVal, error) {
 	val, found := s.index[s.mapper.MapBytes(key)]
-	if found {
-		return val, nil
+	if !found {
+		return IndexVal{}, skiplist.NotFound
 	}
 
-	return IndexVal{}, skiplist.NotFound
+	// the mapper pads with zeros, so keys that only differ in trailing zero bytes share a map slot:
+	// the slot is only an answer when it holds exactly this key, otherwise the sorted slice decides
+	if bytes.Equal(val.key, key) {
+		return val.IndexVal, nil
+	}
+
+	return s.SliceKeyIndex.Get(key)
 }
 
 type MapKeyIndexLoader[T comparable] struct {
@@ -90,7 +98,7 @@ func (s *MapKeyIndexLoader[T]) Load(indexPath string, metadata *proto.MetaData) 
 		capacity = metadata.NumRecords
 	}
 
-	smap := make(map[T]IndexVal, capacity)
+	smap := make(map[T]sliceKey, capacity)
 	sx := make([]sliceKey, 0, capacity)
 
 	record := &proto.IndexEntry{}
@@ -107,8 +115,9 @@ func (s *MapKeyIndexLoader[T]) Load(indexPath string, metadata *proto.MetaData) 
 		}
 
 		kBytes := s.Mapper.MapBytes(record.Key)
-		smap[kBytes] = IndexVal{Offset: record.ValueOffset, Checksum: record.Checksum}
-		sx = append(sx, sliceKey{IndexVal{Offset: record.ValueOffset, Checksum: record.Checksum}, record.Key})
+		entry := sliceKey{IndexVal{Offset: record.ValueOffset, Checksum: record.Checksum}, record.Key}
+		smap[kBytes] = entry
+		sx = append(sx, entry)
 
 		i++
 	}
